@@ -211,8 +211,14 @@ func parseFlight(s string) [][]string {
 	if s == "" || s == "-" {
 		return nil
 	}
+	// the tokens CKXL+1 / CKXH+1 (round 12) contain the coalescing sign: protect them while splitting
+	s = strings.NewReplacer("CKXL+1", "CKXL#1", "CKXH+1", "CKXH#1").Replace(s)
 	for _, r := range strings.Split(s, "|") {
-		out = append(out, strings.Split(r, "+"))
+		msgs := strings.Split(r, "+")
+		for i := range msgs {
+			msgs[i] = strings.Replace(msgs[i], "#", "+", 1)
+		}
+		out = append(out, msgs)
 	}
 	return out
 }
@@ -324,6 +330,8 @@ func scriptedClient(conn net.Conn, suite uint16, cc, tk bool, chv uint16, packin
 			m = gmtls.VerifMarshalCertificate(chain)
 		case "CKX":
 			m = gmtls.VerifMarshalClientKeyExchange(ckxBody)
+		case "CKXT1", "CKXT2", "CKXT16", "CKXL+1", "CKXL-1", "CKXH+1":
+			m = gmtls.VerifMarshalClientKeyExchange(ckxVariant(name, ckxBody))
 		case "CV":
 			if !presented {
 				return nil
